@@ -53,10 +53,10 @@ ASSUMPTIONS = [
 ]
 BOUNDS = {
     "quick": {
-        "layouts": 72,
+        "layouts": "72 + 21 with a line-break look-alike (FF VT FS NEL LS PS lone-CR) in the preceding text",
         "tails": 2,
         "paths": 4,
-        "html_error_template": "string path, LF documents without tail",
+        "html_error_template": "string path, LF documents without tail; string and file paths for the look-alike layouts without tail",
         "richtraceback_and_text_error_template": "string and file paths (all four thorough)",
         "programs": [
             {"weights": [0, 1, 2], "node_kinds": 13, "faults": "all"},
@@ -64,7 +64,7 @@ BOUNDS = {
         ],
     },
     "thorough": {
-        "layouts": 72,
+        "layouts": "72 + 108 with a line-break look-alike (FF VT FS GS RS NEL LS PS lone-CR) in the preceding text",
         "tails": 3,
         "paths": 4,
         "html_error_template": "all paths, all documents",
@@ -116,7 +116,7 @@ def fault_table(seed):
     V, W, Z = POOL_IDS[seed % len(POOL_IDS)]
     F = []
 
-    def add(name, group, snip, fixed, family=None, ctx="any", forbid=(), base=True):
+    def add(name, group, snip, fixed, family=None, ctx="any", forbid=(), base=True, spaceb=True):
         body = snip.replace(A, "").replace(B, "").replace(ALT, "")
         first = snip.split("\n")[0].replace(A, "").replace(B, "").replace(ALT, "")
         cline = [l for l in snip.split("\n") if A in l][0]
@@ -132,6 +132,7 @@ def fault_table(seed):
                 "ctx": ctx,
                 "forbid": tuple(forbid),
                 "base": base,
+                "spaceb": spaceb,
             }
         )
         assert A in snip and body != fixed, name
@@ -205,6 +206,30 @@ def fault_table(seed):
     add("py_nested", "py", A + "<%\n  if " + W + ":\n      " + B + V + " = = 2\n%>", "<%\n  if " + W + ":\n      " + V + " = 2\n%>")
     add("mod_inline", "py", A + "<%! " + B + V + " = = 2 %>", "<%! " + V + " = 2 %>")
     add("mod_own_line2", "py", A + "<%!\n  " + W + " = 1\n  " + B + V + " = = 2\n%>", "<%!\n  " + W + " = 1\n  " + V + " = 2\n%>")
+    # ---- the blank region between the opening delimiter and the first statement is not strictly empty:
+    # a space / TAB after the delimiter before the line break, whitespace-only (auto-indented) lines, or both
+    gaps = (
+        ("trailsp", " \n"), ("trailtab", "\t\n"), ("wsline", "\n    \n"), ("wslines", "\n  \n\t\n"),
+        ("trailsp_wsline", " \n  \t\n"), ("trailtab_wslines", "\t\n \n\t \n"),
+    )
+    bodies = (
+        # (name, opener, body with marks, repaired body)
+        ("py_own_line1", "<%", "  " + B + V + " = = 2\n  " + W + " = 1\n  " + Z + " = 1\n%>", "  " + V + " = 2\n  " + W + " = 1\n  " + Z + " = 1\n%>"),
+        ("py_own_line2", "<%", "  " + V + " = 2\n  " + B + W + " = = 1\n  " + Z + " = 1\n%>", "  " + V + " = 2\n  " + W + " = 1\n  " + Z + " = 1\n%>"),
+        ("py_own_line3", "<%", "  " + V + " = 2\n  " + W + " = 1\n  " + B + Z + " = = 1\n%>", "  " + V + " = 2\n  " + W + " = 1\n  " + Z + " = 1\n%>"),
+        ("py_nested", "<%", "  if " + W + ":\n      " + B + V + " = = 2\n%>", "  if " + W + ":\n      " + V + " = 2\n%>"),
+        ("py_after_mlstring", "<%", "  " + W + " = '''p\nq'''\n  " + B + V + " = = 2\n%>", "  " + W + " = '''p\nq'''\n  " + V + " = 2\n%>"),
+        ("py_after_comment", "<%", "  # c %>\n  " + B + V + " = = 2\n%>", "  # c %>\n  " + V + " = 2\n%>"),
+        ("mod_own_line1", "<%!", "  " + B + V + " = = 2\n  " + W + " = 1\n%>", "  " + V + " = 2\n  " + W + " = 1\n%>"),
+        ("mod_own_line2", "<%!", "  " + W + " = 1\n  " + B + V + " = = 2\n%>", "  " + W + " = 1\n  " + V + " = 2\n%>"),
+        ("expr_nextline", "${", " " + B + V + " +* 1\n}", " " + V + " + 1\n}"),
+        ("expr_nextline_ml2", "${", " (" + V + ",\n " + B + W + " +* 1)\n}", " (" + V + ",\n " + W + ")\n}"),
+        ("expr_nextline_ml3", "${", " (" + V + ",\n " + W + ",\n " + B + "3 +* 1)}", " (" + V + ",\n " + W + ",\n 3)}"),
+    )
+    for bname, opener, body, fixed_body in bodies:
+        for gname, gap in gaps:
+            add(bname + "_gap_" + gname, "py", A + opener + gap + body, opener + gap + fixed_body,
+                spaceb=(bname, gname) in (("py_own_line2", "trailsp_wsline"), ("expr_nextline", "trailtab_wslines"), ("mod_own_line2", "wsline")))
     # ---- signatures and attribute expressions
     add("def_sig", "py", A + '<%def name="f(a, ' + B + '+*b)"></%def>', '<%def name="f(a, b)"></%def>')
     add("def_sig_ml", "py", A + '<%def name="f(a,\n  ' + B + '+*b)"></%def>', '<%def name="f(a,\n  b)"></%def>')
@@ -319,10 +344,20 @@ BLANKS = (0, 1, 2)
 EOLS = ("\n", "\r\n")
 PRETEXT = ("none", "one", "three", "cont")
 PLACE = ("col1", "indent4", "after3")
+# characters str.splitlines() (and some editors) treat as a line break but which do not end a template line:
+# only LF does.  They are planted in the text *before* the line of the fault.
+SPECIALS = ("\x0c", "\x0b", "\x1c", "\x85", "\u2028", "\u2029", "\r", "\x1d", "\x1e")
 
 
-def layouts():
-    return list(itertools.product(BLANKS, EOLS, PRETEXT, PLACE))
+def layouts(tier="quick"):
+    """the 72 layouts of the design + layouts whose preceding text holds a line-break look-alike"""
+    out = list(itertools.product(BLANKS, EOLS, PRETEXT, PLACE))
+    if tier == "quick":
+        for i in range(7):
+            out += [(0, "\n", "special%d" % i, "col1"), (0, "\r\n", "special%d" % i, "col1"), (1, "\n", "special%d" % i, "after3")]
+    else:
+        out += list(itertools.product((0, 1), EOLS, ["special%d" % i for i in range(len(SPECIALS))], PLACE))
+    return out
 
 
 def tails(tier, seed):
@@ -343,6 +378,9 @@ def layout_prefix(layout, seed):
         s += t1 + "\n" + t3 + "\n" + "l3\n"
     elif pre == "cont":
         s += t1 + " \\\n"
+    elif pre.startswith("special"):
+        x = SPECIALS[int(pre[7:])]
+        s += t1 + x + t3 + "\n" + x + "l2" + x + "z\n"
     if place == "indent4":
         s += "    "
     elif place == "after3":
@@ -501,6 +539,8 @@ def print_program(forest):
 
 
 def applicable_b(fault, anc, rest):
+    if not fault["spaceb"]:
+        return False
     ctx = fault["ctx"]
     if ctx == "toptags" and any(k in TAG_KINDS for k in anc):  # no enclosing def / call / block
         return False
@@ -805,7 +845,8 @@ def run_a(tier, seed, F, sh, ns, st):
     seen = set()
     quick = tier == "quick"
     skipped = 0
-    for layout in layouts():
+    for layout in layouts(tier):
+        special = layout[2].startswith("special")
         for f in F:
             for tail in tails(tier, seed):
                 built = build_a(layout, f, tail, seed)
@@ -818,7 +859,12 @@ def run_a(tier, seed, F, sh, ns, st):
                 seen.add(text)
                 if f["base"]:
                     check_base(base, st, "A", f["name"])
-                html_paths = PATHS if not quick else ("string",) if tail == "" and layout[1] == "\n" else ()
+                if not quick:
+                    html_paths = PATHS
+                elif special:
+                    html_paths = ("string", "file") if tail == "" else ()
+                else:
+                    html_paths = ("string",) if tail == "" and layout[1] == "\n" else ()
                 check_doc(text, exp, PATHS, html_paths, st, "A", light_paths=("lookup", "moddir") if quick else ())
                 if len(seen) % 499 == 1:
                     st.sample({"space": "A", "fault": f["name"], "layout": list(layout), "text": text, "expect": {"lineno": exp["lineno"], "pos": exp["cols"]}})
@@ -877,13 +923,14 @@ def replay(case):
 
 
 LEVEL_TEXT = (
-    "Every one of 133 planted fault constructs (all classes of the statement, with line variants) is compiled behind each of 72 layout prefixes, "
+    "Every one of 199 planted fault constructs (all classes of the statement, with line variants, incl. not-strictly-empty blank regions after <% <%! ${) is compiled behind each of 72 layout prefixes "
+    "plus 21 (108 thorough) prefixes whose text holds a line-break look-alike (FF, VT, FS, NEL, LS, PS, lone CR), "
     "2-3 tails and through all four construction paths, and at every node boundary of every template program of weight <= 2 over 13 node kinds "
     "(<= 3 over 14 kinds thorough; 23 core faults one weight deeper over 6 resp. 9 kinds); class, filename, source, lineno, pos, RichTraceback, text and html error templates and path agreement are "
     "compared with values computed by the planter. Complete within those bounds; no sampling."
 )
 LEVEL_NOTE = (
-    "Trusted: CPython's parser (which line a planted operator fault is reported on), the planter's marks in the fault table, html.unescape and "
+    "Trusted: CPython's parser (which line a planted operator fault is reported on), the planter's marks in the fault table, that only LF ends a template line (FF, VT, FS/GS/RS, NEL, LS, PS and a lone CR do not), html.unescape and "
     "the pygments markup for the html page. Columns of control lines accept line start or '%'. Unclosed tags at end of input: class/filename/source only."
 )
 READY = True
